@@ -348,7 +348,7 @@ func ecdhParty(p party, c kapCase) (*ecdhSide, error) {
 	}
 	z, err := out.P.SM2ZA(sm3.New(), cp(p.uid))
 	if err != nil || !bytes.Equal(z, p.z) {
-		return nil, fmt.Errorf("SM2ZA(uid=%s) = %x, %v; want %x", h.Hex(p.uid), z, err, p.z)
+		return nil, fmt.Errorf("SM2ZA(uid=%s [len %d, nil=%v, cap>0=%v]) = %x, %v; want %x", h.Hex(p.uid), len(p.uid), p.uid == nil, cap(p.uid) > 0, z, err, p.z)
 	}
 	return out, nil
 }
